@@ -95,8 +95,19 @@ func c38Classify(d sx.Diff, c *sx.StepCtx) string {
 		}
 		return "declared-not-implemented:" + kind
 	}
-	if b := c.M.Buckets["bka"]; b != nil && b.Versioning != "" {
-		return "versioned-bucket:" + sx.DefaultClass(d)
+	// the one recorded deviation on versioning-enabled buckets: a key-addressed transition is a
+	// self-copy and creates a new version; every later observation of that history differs
+	versioned := false
+	for _, o := range append(append([]sx.Op(nil), c.Path...), c.Op) {
+		if o.Kind == "PutVersioning" {
+			versioned = true
+		}
+		if o.Kind == "DeleteBucket" {
+			versioned = false
+		}
+		if versioned && o.Kind == "Transition" && o.V == "" {
+			return "transition-by-copy-creates-new-version"
+		}
 	}
 	return sx.DefaultClass(d)
 }
@@ -183,11 +194,18 @@ func TestC38(t *testing.T) {
 		s.Stacks = []string{world.StackSQL, world.StackFS}
 	}
 	s.Explore()
+	// versioning-enabled bucket: two versions of k1 with different tag sets, one version of "k 2"
+	vseed := []sx.Op{{Kind: "CreateBucket", B: "bka"}, {Kind: "PutVersioning", B: "bka", Opt: map[string]string{"status": "Enabled"}},
+		{Kind: "Put", B: "bka", K: "k1", Body: "a", Opt: map[string]string{"ct": "a/b", "tags": "t=1"}},
+		{Kind: "Put", B: "bka", K: "k1", Body: "b", Opt: map[string]string{"ct": "a/b", "tags": "t=2"}},
+		{Kind: "Put", B: "bka", K: "k 2", Body: "e", Opt: map[string]string{"ct": "a/b"}}}
+	v := &sx.Search{Run: run, TestRun: "^TestWorker$", Spec: sx.SpecByName("C38v"), Depth: 1, Stacks: []string{world.StackSQL}, Seeds: [][]sx.Op{vseed}}
 	if !quick() {
-		v := &sx.Search{Run: run, TestRun: "^TestWorker$", Spec: sx.SpecByName("C38v"), Depth: 2, Stacks: []string{world.StackSQL}, Seeds: s.Seeds}
-		v.Explore()
-		s.Merge(v)
+		v.Depth = 2
+		v.Seeds = append(v.Seeds, s.Seeds...)
 	}
+	v.Explore()
+	s.Merge(v)
 	s.Coverage()
 	fmt.Printf("C38: states=%d transitions=%d depth=%v\n", s.States, s.Transitions, s.DepthDone)
 	_ = io.Discard
